@@ -422,7 +422,10 @@ inline int run(int argc, char** argv, const std::vector<Scenario>& scs) {
             vh::stat_add("ok_runs", ex.st_ok);
             vh::stat_add("quiescent_ok_runs", ex.st_quiescent);
             vh::stat_max("max_choice_points", ex.max_points);
-            if (b == B || ex.stopped) vh::stat_add("schedules_at_top_bound", ex.owned);
+            if (b == B || ex.stopped) {
+                vh::stat_add("schedules_at_top_bound", ex.owned);
+                vh::stat_add("states", ex.owned);
+            }
             if (ex.failures) any_fail = true;
             if (ex.stopped) {
                 if (ex.stop_reason == "deadline")
